@@ -227,6 +227,7 @@ def main(argv=None):
     known_now = load_known(prop)
     while (not replay_spec and not any(classify(v, known_now) is None for v in violations) and not inconclusive and gate_shortfalls() and topup_rounds < 2):
         topup_rounds += 1
+        extra.setdefault("topup_after_short_gates", []).append({g_: int(counters.get(g_, 0)) for g_ in gate_shortfalls()})
         run_round([nshards * topup_rounds + s for s in shards], topup=True)
     if topup_rounds:
         counters["topup_rounds_after_gate_shortfall"] = topup_rounds
